@@ -28,6 +28,7 @@ import (
 	"strconv"
 	"strings"
 	"sync"
+	"sync/atomic"
 	"testing"
 	"time"
 
@@ -469,6 +470,9 @@ func Run[C any](t *testing.T, p *Prop[C]) {
 	var lastMsg string
 	counting := true
 	prop := func(rt *rapid.T) {
+		if poisoned.Load() && lastFail != nil {
+			rt.Fatalf("%s", lastMsg) // stop shrinking: every further run fails the same way
+		}
 		c := p.Gen(rt)
 		b, err := json.Marshal(c)
 		if err != nil {
@@ -560,6 +564,10 @@ func sanitize(s string) string {
 	}, s)
 }
 
+// poisoned is set once a watchdog fired: a goroutine of the code under test is
+// stuck, so shrinking further in this process is pointless.
+var poisoned atomic.Bool
+
 // WithTimeout runs f in a goroutine and waits at most sec seconds.  It returns
 // false when f did not finish (the goroutine is leaked; the caller must treat
 // the process as poisoned).
@@ -576,6 +584,7 @@ func WithTimeout(sec int, f func()) bool {
 		}
 		return true
 	case <-time.After(time.Duration(sec) * time.Second):
+		poisoned.Store(true)
 		return false
 	}
 }
